@@ -207,6 +207,15 @@ NONSTD = [("vp_sink", "hit"), ("vp_sink", "K"), ("vp_canary_0", "f"), ("vp_canar
 # ("__main__", X) is deliberately not in the vocabulary: stdlib_list documents __main__ as a library
 # module while pickled classes living there are user code - a contested label is a don't-care.
 
+# attribute names that opcode handlers, analyses or the decompiler's own naming scheme could plausibly
+# special-case; used as callee names from builtins *and* from other modules
+TYPE_NAMES = ["set", "frozenset", "bytearray", "range", "complex", "slice", "dict", "list", "tuple", "object",
+              "type", "str", "int", "bytes", "float", "bool"]
+RULE_NAMES = ["load", "loads", "getitem", "attrgetter", "itemgetter", "methodcaller", "runstring",
+              "_load_from_bytes", "system", "OrderedDict", "_reconstructor", "encode", "_run_code", "execWrapper"]
+SCHEME_NAMES = ["result", "_var0", "_var1", "UNPICKLER", "persistent_load", "__setstate__", "update"]
+SPECIAL_NAMES = EVALCLASS + BUILTIN_OTHER + TYPE_NAMES + RULE_NAMES + SCHEME_NAMES
+
 RESOLVE_OPS = ["GLOBAL", "STACK_GLOBAL", "INST"]
 CALL_OPS = ["REDUCE", "OBJ", "INST", "NEWOBJ", "NEWOBJ_EX"]
 FATES = ["result", "pop", "pop_mark", "dup", "memo_unused", "memo_reused", "in_list", "in_tuple",
